@@ -1,14 +1,104 @@
-import ZixModel.Model.BTree
-/-! # C02 — B-tree positional queries -/
+import ZixModel.Lemmas.BTreeDefs
+import ZixModel.Lemmas.BTreeIter
+/-! # C02 — B-tree positional queries: lower_bound, begin, increment, equals
+
+Property theorems only; helper lemmas live in `ZixModel/Lemmas/BTreeIter.lean`.
+(`find` is in Properties/C01, `remove`'s `next` in Properties/C01Remove.) -/
 namespace Zix.C02
 open Zix.BTree
+
+/-- A valid iterator: its path leads to a node and an index of one of that node's values. -/
+def ValidIter (root : Node) (p : List Nat) : Prop := ∃ n i, nodeAt root p = some (n, i) ∧ i < n.nVals
+
+/-- A search comparator compatible with the tree order: its sign is monotone along the sorted
+elements (so the elements with `cmp < 0` come first, then those with `cmp = 0`, then `cmp > 0`). -/
+def Compatible (cmp : Nat → Int) (l : List Nat) : Prop :=
+  ∀ a b, a ∈ l → b ∈ l → a < b → (cmp a ≤ 0 ∨ 0 < cmp b) ∧ (cmp a < 0 ∨ 0 ≤ cmp b)
 
 /-- All end iterators are equal, and an end iterator differs from every valid one. -/
 theorem end_iterators_equal (p : List Nat) : iterEquals none none = true ∧ iterEquals none (some p) = false := by
   constructor <;> rfl
 
-/-- Two iterators compare equal exactly when they are the same position (same index path). -/
+/-- Two iterators compare equal exactly when they are the same index path. -/
 theorem iter_equals_iff (a b : Iter) : iterEquals a b = true ↔ a = b := by
   unfold iterEquals; simp
+
+/-- In a well-formed tree two valid iterators are at the same position (same path) exactly when they
+dereference to the same element. -/
+theorem valid_iter_eq_iff_same_element (c : Cfg) (t : Tree) (h : WF c t) (p q : List Nat)
+    (hp : ValidIter t.root p) (hq : ValidIter t.root q) :
+    iterEquals (some p) (some q) = true ↔ deref t.root (some p) = deref t.root (some q) := by
+  rw [iter_equals_iff]
+  constructor
+  · intro he; rw [he]
+  · intro he
+    obtain ⟨v, hd, _⟩ := It.vi_deref_mem c _ true t.root p h.shape hp
+    rw [It.path_inj c _ true t.root p q v h.shape h.sorted hp hq hd (he ▸ hd)]
+
+/-- `zix_btree_begin` is at the smallest element (end for an empty tree) and is valid.
+
+CORRECTED: hypothesis `hc : c.Valid` added.  Without it `WF` allows a geometry with `leafMin = 0`
+(`leafMax ≤ 2`) and hence empty non-root leaves, for which the statement is false: see the counterexample
+`It.begin_needs_valid` (`c = ⟨2, 2, 8⟩`, root `inode [5, 7] [leaf [], leaf [], leaf []]`). -/
+-- ORIGINAL:
+-- theorem begin_spec (c : Cfg) (t : Tree) (h : WF c t) :
+--     deref t.root t.begin = t.root.elems.head? ∧ (∀ p, t.begin = some p → ValidIter t.root p)
+theorem begin_spec (c : Cfg) (hc : c.Valid) (t : Tree) (h : WF c t) :
+    deref t.root t.begin = t.root.elems.head? ∧ (∀ p, t.begin = some p → ValidIter t.root p) := by
+  unfold Tree.begin
+  by_cases hz : t.size = 0
+  · have : t.root.elems = [] := List.eq_nil_of_length_eq_zero (by rw [← h.size]; exact hz)
+    simp [hz, this, deref]
+  · have hne : t.root.elems ≠ [] := by
+      intro he; apply hz; rw [h.size, he]; rfl
+    obtain ⟨h1, h2⟩ := It.leftmost_spec c (It.valid_leafMin hc) _ true t.root (height t.root) h.shape hne (Nat.le_refl _)
+    simp only [hz, if_false]
+    refine ⟨h2, ?_⟩
+    intro p hp
+    cases hp
+    exact h1
+
+/-- Incrementing a valid iterator moves to the next element in order, and to end after the last;
+the result is again valid (or end).
+
+CORRECTED: hypothesis `hc : c.Valid` added.  Without it `WF` allows a geometry with `leafMin = 0`
+(`leafMax ≤ 2`) and hence empty non-root leaves, for which the statement is false: see the counterexample
+`It.increment_needs_valid` (`c = ⟨2, 2, 8⟩`, root `inode [5, 7] [leaf [], leaf [], leaf []]`, `p = [0]`). -/
+-- ORIGINAL:
+-- theorem increment_walks_inorder (c : Cfg) (t : Tree) (h : WF c t) (p : List Nat) (hp : ValidIter t.root p)
+--     (pre post : List Nat) (v : Nat) (hv : deref t.root (some p) = some v) (hs : t.root.elems = pre ++ v :: post) :
+--     deref t.root (increment t.root p) = post.head? ∧
+--     (∀ q, increment t.root p = some q → ValidIter t.root q)
+theorem increment_walks_inorder (c : Cfg) (hc : c.Valid) (t : Tree) (h : WF c t) (p : List Nat)
+    (hp : ValidIter t.root p)
+    (pre post : List Nat) (v : Nat) (hv : deref t.root (some p) = some v) (hs : t.root.elems = pre ++ v :: post) :
+    deref t.root (increment t.root p) = post.head? ∧
+    (∀ q, increment t.root p = some q → ValidIter t.root q) := by
+  obtain ⟨bf, af, e1, e2, _, e4⟩ := It.inc_spec c (It.valid_leafMin hc) _ true t.root p v h.shape hp hv
+  have hnd : (pre ++ v :: post).Nodup := by
+    rw [← hs]; exact h.sorted.imp (fun hab => Nat.ne_of_lt hab)
+  obtain ⟨_, hpost⟩ := It.split_unique pre bf post af v hnd (by rw [← hs, e1])
+  rw [hpost]
+  exact ⟨e2, e4⟩
+
+/-- `zix_btree_lower_bound` is at the first element that is not less than the key under the search
+comparator (for a wildcard comparator: the first of the matching elements), or end if there is none;
+the iterator is valid. -/
+theorem lower_bound_spec (c : Cfg) (t : Tree) (h : WF c t) (cmp : Nat → Int) (hm : Compatible cmp t.root.elems) :
+    deref t.root (t.lowerBound cmp).1 = t.root.elems.find? (fun v => decide (0 ≤ cmp v)) ∧
+    (∀ p, (t.lowerBound cmp).1 = some p → ValidIter t.root p) := by
+  have hmono : It.Mono cmp t.root.elems := by
+    refine List.Pairwise.imp_of_mem ?_ h.sorted
+    intro a b ha hb hab
+    have := hm a b ha hb hab
+    omega
+  rw [It.lowerBound_fst, It.lbFinish_eq c cmp _ true t.root h.shape hmono]
+  exact It.lbSpec_correct c cmp _ true t.root h.shape hmono
+
+/-- lower_bound costs O(log n) comparisons. -/
+theorem lower_bound_comparisons (c : Cfg) (hc : c.Valid) (t : Tree) (h : WF c t) (cmp : Nat → Int) :
+    (t.lowerBound cmp).2 ≤ height t.root * (Nat.log2 c.leafMax + 1) := by
+  rw [It.lowerBound_snd]
+  exact It.lbn_cmps c hc cmp _ true t.root h.shape
 
 end Zix.C02
